@@ -388,6 +388,85 @@ def check_relax_fixpoint(chk, prog):
               "cost is lower than the tree cost of the term", g.loc)
 
 
+def check_reachable_sorts(chk, prog):
+    """which constructor tables the extractor looks at: a breadth-first walk from the root sorts through container element sorts and
+    constructor argument sorts. A sort that is filtered out of the walk takes all of its constructors out of extraction."""
+    R = chk.rule("R-REACHABLE-SORTS", "Extractor::compute_costs_from_rootsorts: the reachability walk enqueues (a) every inner sort of a container sort — a plain loop over "
+                 "Sort::inner_sorts() with no adapter — and (b) every argument sort of a reachable constructor — a loop over func_type.input limited only by "
+                 "take(extraction_num_children()); in both loops an iteration either enqueues the sort or found it in `seen` (the only test between the loop head and push_back is "
+                 "the `seen.contains` check)")
+    f = prog.need("egglog::extract::Extractor::compute_costs_from_rootsorts")
+    pushes = {c.bb for c in f.calls if c.p.endswith("VecDeque::push_back")}
+    n = 0
+    for c in f.calls:
+        if not (c.p.endswith("Iterator>::next") or c.p.endswith("Iterator::next")):
+            continue
+        at = f.origins(c.args[0])
+        kind = None
+        if at and all(a[0] == "call" and a[1].endswith("Sort::inner_sorts") for a in at):
+            kind = "container-elements"
+        elif at and all(a[0] == "call" and a[1].endswith("Iterator::take") for a in at):
+            tk = f.call_at(list(at)[0][2])
+            src = f.origins(tk.args[0])
+            cnt = f.origins(tk.args[1])
+            if any(atom_ok(a, "input") for a in src) and any(a[0] == "call" and a[1].endswith("extraction_num_children") for a in cnt):
+                kind = "constructor-arguments"
+        if kind is None:
+            # an adapter (filter / skip / take ...) between inner_sorts() and the loop?
+            def chain(o, d=0):
+                out = set()
+                for a in f.origins(o):
+                    if a[0] == "call" and d < 4:
+                        out.add(a[1])
+                        cc = f.call_at(a[2])
+                        if cc is not None and cc.args:
+                            out |= chain(cc.args[0], d + 1)
+                return out
+            names = chain(c.args[0])
+            if any(x.endswith("Sort::inner_sorts") for x in names):
+                n += 1
+                adapters = sorted({x.rsplit("::", 1)[-1] for x in names if "iter::" in x and not x.endswith(("::into_iter", "::iter"))})
+                chk.bad(R, "compute_costs_from_rootsorts:container-elements",
+                        f"the loop over a container sort's inner sorts goes through an adapter ({', '.join(adapters)}): some element sorts are never enqueued, so constructors reachable only "
+                        "through them (e.g. the elements of a nested container) never enter the extractor", c.loc)
+            continue
+        n += 1
+        sw = c.target
+        some = [tb for v, tb in f.term(sw)[2] if v == "1"] if sw is not None and f.term(sw)[0] == "switch" else []
+        ok = bool(some)
+        why = "loop shape not recognised"
+        if ok:
+            # edges allowed to skip the push: the `seen.contains(..) == true` edge
+            from ..util import edge_relation
+            seen_b = set()
+            stack = [some[0]]
+            reached = False
+            while stack:
+                x = stack.pop()
+                if x in seen_b or x in pushes:
+                    continue
+                seen_b.add(x)
+                if x == c.bb:
+                    reached = True
+                    break
+                for sx in f.succ[x]:
+                    er = edge_relation(f, x, sx)
+                    if er and er.get("truth") is True and er["desc"][0] == "call" and er["desc"][1].p.endswith("HashSet::contains"):
+                        continue
+                    stack.append(sx)
+            ok = not reached
+            why = "an iteration can move on without enqueuing a sort that is not in `seen`"
+        chk.judge(ok, R, f"compute_costs_from_rootsorts:{kind}", f"every {kind.replace('-', ' ')[:-1]} sort is enqueued unless already seen",
+                  why + ": the constructors of that sort never enter the extractor, so terms containing them cannot be extracted (or a costlier alternative is returned)", c.loc)
+    # the filtered form (an adapter between the source and the loop) is not matched above at all: require both loops to exist
+    chk.floor(R, n, 2, "reachability loops (container element sorts, constructor argument sorts)")
+
+
+def atom_ok(a, field):
+    p = a[2] if a[0] == "param" else a[3] if a[0] == "call" else a[2] if a[0] in ("local", "var") else ()
+    return field in (p or ())
+
+
 def run(chk, prog, tier):
     chk.explanation = EXPLANATION
     chk.assumptions = ["rustc nightly MIR construction", "deleted rows are invisible to scans (decided under C16 R-RAW-ROWS)"]
@@ -396,6 +475,7 @@ def run(chk, prog, tier):
     check_rank(chk, prog)
     check_cost(chk, prog)
     check_relax_fixpoint(chk, prog)
+    check_reachable_sorts(chk, prog)
     # the extractor reads tables through the batched row scans of the bridge: the last partial batch must not be lost
     from . import scan_common
     scan_common.check_scan_batches(chk, prog, only=lambda f: f.crate in ("egglog_bridge", "egglog") or "for_each_matching_col" in f.name, floor=4)
